@@ -362,3 +362,226 @@ Example C11_nonvacuous_refit :
   g_ws (asm_reset 1 (mk_gbm [50] [exa_stump 8 8; exa_aff 1 1])) = [] /\
   assemble 1 (mk_gbm [50] [exa_stump 8 8]) exa_extras 2 1 = assemble 1 gbm0 exa_extras 2 1.
 Proof. vm_compute. split; reflexivity. Qed.
+
+(* ==================================================================================================================== *)
+(* Extension "stats": the code that COMPUTES and STORES the reported statistics inside the model (C11_Stats_Defs):          *)
+(* ml::store_stats / load_stats, tensor_t::mean / variance (clamped) / stdev, nano::percentile (the C20 model), the flat      *)
+(* buffers m_values(trial, fold, split, kind, 12) / m_optims of ml::result_t (C16 index model), value(), optimum_trial(),     *)
+(* closest_trial(), the tasks of ml::tune. 70 kernels translated on every run (Src_stats).                                    *)
+(* ==================================================================================================================== *)
+From Coq Require Import Permutation Sorted.
+From LN Require Import C16_Defs C20_Defs C20_Proofs C11_Stats_Defs C11_Stats.
+Local Open Scope Q_scope.
+
+(* what the translated selector / index kernels say: which quantity goes to which column, which column each member of
+   stats_t reads, the nine percentages, the four store_stats calls of store(trial, fold, ..), the enum -> index maps *)
+Theorem C11_stats_kernels :
+  st_sel = [0; 1; 2]%Z /\ st_pcts = [1; 5; 10; 20; 50; 80; 90; 95; 99]%Z /\ ld_cols = [0; 1; 2; 3; 4; 5; 6; 7; 8; 9; 10; 11]%Z /\
+  @store_calls = [(0, 0, 0, 0); (0, 1, 0, 1); (1, 0, 1, 0); (1, 1, 1, 1)]%Z /\ final_calls = [(0, 0); (1, 1)]%Z /\
+  (forall s c a, Src_stats.src_var_expr s c a = Z.max (Z.quot s c - a * a) 0) /\
+  (forall T (Op : ops T) st t f (a b : bool),
+     r_stats Op st t f a b = load_stats Op (r_read st t f (if a then 0 else 1) (if b then 0 else 1))%Z) /\
+  (forall T (Op : ops T) st (b : bool), r_stats_final Op st b = load_stats Op (r_read_opt st (if b then 0 else 1)%Z)) /\
+  (forall T (Op : ops T) m s c vals, load_stats Op (store_stats Op [m; s; c] vals) = m :: s :: c :: st_percentiles Op vals) /\
+  (forall n, Src_stats.src_st_pct_last n = Src_pctile.src_pct_last n) /\
+  (forall l r, Src_stats.src_st_pct_same l r = Src_pctile.src_pct_same l r).
+Proof.
+  split; [exact k_st_sel|]. split; [exact k_st_pcts|]. split; [exact k_ld_cols|]. split; [exact k_store_calls|].
+  split; [exact k_final_calls|]. split; [exact k_var_expr|]. split; [exact @r_stats_eq|]. split; [exact @r_stats_final_eq|].
+  split; [exact @load_store|]. exact k_pct_kernels_agree.
+Qed.
+Print Assumptions C11_stats_kernels.
+
+(* (1) layout: every (trial, fold, split, kind, statistic) has its own cell inside the buffer; storing a (trial, fold) then
+   loading returns the four records; no other (trial, fold) changes (frame); add() keeps every stored record and the new
+   trials read as NaN *)
+Theorem C11_stats_layout :
+  (forall T F t f s v k t' f' s' v' k', idx_ok T F t f s v -> idx_ok T F t' f' s' v' -> (0 <= k < 12)%Z -> (0 <= k' < 12)%Z ->
+     (0 <= cell T F t f s v k < size (vdims T F))%Z /\
+     (cell T F t f s v k = cell T F t' f' s' v' k' -> t = t' /\ f = f' /\ s = s' /\ v = v' /\ k = k')) /\
+  (forall A (st : rstate A) t f s v row, wf st -> ok st t f s v -> length row = 12%nat ->
+     r_read (r_write st t f s v row) t f s v = row /\
+     forall t' f' s' v', ok st t' f' s' v' -> (t, f, s, v) <> (t', f', s', v') ->
+       r_read (r_write st t f s v row) t' f' s' v' = r_read st t' f' s' v') /\
+  (forall A (st : rstate A) t f rec, wf st -> (0 <= t < r_trials st)%Z -> (0 <= f < r_folds st)%Z -> rows_ok rec ->
+     let st' := r_store st t f rec in
+     wf st' /\ r_trials st' = r_trials st /\ r_folds st' = r_folds st /\ r_optims st' = r_optims st /\
+     r_read st' t f 0 0 = rec 0%Z 0%Z /\ r_read st' t f 0 1 = rec 0%Z 1%Z /\ r_read st' t f 1 0 = rec 1%Z 0%Z /\
+     r_read st' t f 1 1 = rec 1%Z 1%Z /\
+     (forall t' f' s' v', ok st t' f' s' v' -> (t', f') <> (t, f) -> r_read st' t' f' s' v' = r_read st t' f' s' v')) /\
+  (forall A (d : A) (st : rstate A) n, wf st -> (0 <= n)%Z ->
+     let st' := r_add d st n in
+     wf st' /\ r_trials st' = (r_trials st + n)%Z /\ r_folds st' = r_folds st /\ r_optims st' = r_optims st /\
+     (forall t f s v, ok st t f s v -> r_read st' t f s v = r_read st t f s v) /\
+     (forall t f s v, ok st' t f s v -> (r_trials st <= t)%Z -> r_read st' t f s v = repeat d 12)) /\
+  (forall A (st : rstate A) rec, length (r_optims st) = 24%nat -> length (rec 0%Z) = 12%nat -> length (rec 1%Z) = 12%nat ->
+     let st' := r_store_final st rec in
+     r_read_opt st' 0 = rec 0%Z /\ r_read_opt st' 1 = rec 1%Z /\ r_values st' = r_values st /\ r_trials st' = r_trials st /\
+     r_folds st' = r_folds st /\ length (r_optims st') = 24%nat).
+Proof.
+  split; [intros; split; [apply cell_range; assumption|apply cell_injective; assumption]|].
+  split; [intros A st t f s v row W K L; split; [apply read_write_same; assumption|intros; apply read_write_other; assumption]|].
+  split; [intros A; exact (@store_spec A)|]. split; [intros A; exact (@add_spec A)|]. intros A; exact (@final_spec A).
+Qed.
+Print Assumptions C11_stats_layout.
+
+(* (2) the 12 numbers are a function of the MULTISET of the per-sample values: whatever the order in which samples or
+   threads delivered them (exact rationals; component-wise Qeq) *)
+Theorem C11_stats_multiset : forall l l' : list Q, Permutation l l' ->
+  Forall2 Qeq (q_stats l) (q_stats l') /\ q_variance l == q_variance l' /\ q_count l = q_count l'.
+Proof. intros l l' H. split; [apply stats_multiset, H|]. split; [apply q_variance_perm, H|apply q_count_perm, H]. Qed.
+Print Assumptions C11_stats_multiset.
+
+(* (3) sanity facts of a stored record, for every non-empty list of at most 2^46 + 1 values: 12 numbers; count = length;
+   the nine percentile columns are non-decreasing (p1 <= p5 <= ... <= p99); mean and every percentile lie between any lower
+   and upper bound of the values (so between min and max); the radicand of the deviation and the variance are >= 0, and for
+   n >= 2 they vanish iff all values are equal; over Q the clamp of b0b87e4 never fires (the one-pass expression IS the mean
+   squared deviation) *)
+Theorem C11_stats_order_facts : forall l : list Q, size_ok l ->
+  let r := q_stats l in
+  length r = 12%nat /\
+  nth 0 r 0 == q_mean l /\ nth 1 r 0 == q_stdev2 l /\ nth 2 r 0 == inject_Z (Z.of_nat (length l)) /\
+  (forall i j, (3 <= i <= j)%nat -> (j < 12)%nat -> nth i r 0 <= nth j r 0) /\
+  (forall a b, (forall x, In x l -> a <= x <= b) ->
+     a <= nth 0 r 0 <= b /\ forall k, (3 <= k < 12)%nat -> a <= nth k r 0 <= b) /\
+  0 <= nth 1 r 0 /\ 0 <= q_variance l /\
+  ((1 < Z.of_nat (length l))%Z -> (nth 1 r 0 == 0 <-> all_equal l) /\ (q_variance l == 0 <-> all_equal l) /\
+                                  q_variance l == var_raw l /\ var_raw l == msd l / inject_Z (Z.of_nat (length l))) /\
+  (length l = 1%nat -> nth 1 r 0 == 0 /\ q_variance l == 0).
+Proof. exact stats_order_facts. Qed.
+Print Assumptions C11_stats_order_facts.
+
+(* (4) value(trial, split, kind) sums, fold 0 first, member m_mean of the stored statistics of that trial and divides by
+   folds(): it reads nothing else (two states that agree on these means give the same value), over Q it is the mean of the
+   stored fold means; value(trial) is the (validation, errors) one *)
+Theorem C11_value_reads_stored_means :
+  (forall T (Op : ops T) st t (a b : bool), (0 <= r_folds st)%Z ->
+     r_value Op st t a b =
+     div Op (fold_left (add Op) (map (fold_mean Op st t a b) (seq 0 (Z.to_nat (r_folds st)))) (ofZ Op 0)) (ofZ Op (r_folds st))) /\
+  (forall T (Op : ops T) st st' t (a b : bool), (0 <= r_folds st)%Z -> r_folds st' = r_folds st ->
+     (forall f, (f < Z.to_nat (r_folds st))%nat -> fold_mean Op st' t a b f = fold_mean Op st t a b f) ->
+     r_value Op st' t a b = r_value Op st t a b) /\
+  (forall st t (a b : bool), (0 <= r_folds st)%Z ->
+     r_value Q_ops st t a b == qsum (map (fold_mean Q_ops st t a b) (seq 0 (Z.to_nat (r_folds st)))) / inject_Z (r_folds st)) /\
+  (forall T (Op : ops T) st t, r_value_default Op st t = r_value Op st t false true).
+Proof.
+  split; [intros T Op; exact (r_value_eq Op)|]. split; [intros T Op; exact (r_value_reads_means Op)|].
+  split; [exact q_value_eq|]. intros T Op; exact (r_value_default_eq Op).
+Qed.
+Print Assumptions C11_value_reads_stored_means.
+
+(* optimum_trial() / closest_trial() over any totally pre-ordered scalar: the FIRST trial whose value(trial) / distance is
+   minimal, provided one is below numeric_limits::max(); otherwise trial 0 *)
+Theorem C11_optimum_is_first_minimum : forall T (Op : ops T), order_ok Op ->
+  (forall (tmax : T) (st : rstate T), (0 <= r_trials st)%Z ->
+     let x := r_value_default Op st in
+     let r := r_optimum Op tmax st in
+     ((forall j, (0 <= j < r_trials st)%Z -> ~ C20_Proofs.lt Op (x j) tmax) /\ r = 0%Z) \/
+     ((0 <= r < r_trials st)%Z /\ C20_Proofs.lt Op (x r) tmax /\
+      (forall j, (0 <= j < r_trials st)%Z -> C20_Proofs.le Op (x r) (x j)) /\
+      (forall j, (0 <= j < r)%Z -> C20_Proofs.lt Op (x r) (x j)))) /\
+  (forall (tmax : T) (dist : Z -> T) (n : Z), (0 <= n)%Z ->
+     let r := r_closest Op tmax dist n in
+     ((forall j, (0 <= j < n)%Z -> ~ C20_Proofs.lt Op (dist j) tmax) /\ r = 0%Z) \/
+     ((0 <= r < n)%Z /\ C20_Proofs.lt Op (dist r) tmax /\ (forall j, (0 <= j < n)%Z -> C20_Proofs.le Op (dist r) (dist j)) /\
+      (forall j, (0 <= j < r)%Z -> C20_Proofs.lt Op (dist r) (dist j)))).
+Proof. intros T Op H. split; [exact (optimum_spec Op H)|exact (closest_spec Op H)]. Qed.
+Print Assumptions C11_optimum_is_first_minimum.
+
+(* (5) one batch of ml::tune, the folds * new_trials tasks executed in ANY order: afterwards the statistics stored for
+   (old_trials + trial, fold, split, kind) are those of the list  map (error | loss of the model fitted for (trial, fold))
+   over exactly the fold's (training | validation) samples, and no record of an older trial has changed *)
+Theorem C11_tune_batch_any_order :
+  forall (S M P : Type) (fit_cb : P -> list S -> M) (errf lossf : M -> S -> Q)
+         (splits : list (list S * list S)) (params : list P) (dp : P) (st : rstate Q) (order : list Z),
+  wf st -> (0 < r_folds st)%Z ->
+  Permutation order (map Z.of_nat (seq 0 (Z.to_nat (r_folds st * Z.of_nat (length params))))) ->
+  let st' := tune_batch S M P fit_cb errf lossf splits params dp st order in
+  wf st' /\ r_trials st' = (r_trials st + Z.of_nat (length params))%Z /\ r_folds st' = r_folds st /\
+  (forall trial fold (a b : bool), (0 <= trial < Z.of_nat (length params))%Z -> (0 <= fold < r_folds st)%Z ->
+     let sp := nth (Z.to_nat fold) splits ([], []) in
+     let m := fit_cb (nth (Z.to_nat trial) params dp) (fst sp) in
+     r_stats Q_ops st' (r_trials st + trial) fold a b
+     = q_stats (map ((if b then errf else lossf) m) (if a then fst sp else snd sp))) /\
+  (forall t f s v, ok st t f s v -> r_read st' t f s v = r_read st t f s v).
+Proof. exact tune_batch_spec. Qed.
+Print Assumptions C11_tune_batch_any_order.
+
+(* ---------------- non-vacuity of the extension "stats" ---------------- *)
+Ltac conc := repeat split; try reflexivity; try (vm_compute; intros; discriminate); try (vm_compute; reflexivity).
+Definition exs_vals : list Q := [3; 1; 2; 2; 5].
+(* sorted 1 2 2 3 5: mean 13/5, one-pass variance 43/5 - 169/25 = 46/25, radicand 46/100, positions p*4/100: the percentile is
+   an element or the MIDPOINT of two neighbours (1% .. 20% -> (1+2)/2, 50% -> 2, 80% .. 99% -> (3+5)/2) *)
+Example C11_nonvacuous_stats_record :
+  size_ok exs_vals /\ Permutation exs_vals (rev exs_vals) /\ rev exs_vals <> exs_vals /\ (1 < Z.of_nat (length exs_vals))%Z /\
+  map Qred (q_stats exs_vals) = [13 # 5; 23 # 50; 5; 3 # 2; 3 # 2; 3 # 2; 3 # 2; 2; 4; 4; 4; 4] /\
+  map Qred (q_stats (rev exs_vals)) = map Qred (q_stats exs_vals) /\
+  Qred (q_variance exs_vals) = 46 # 25 /\ ~ all_equal exs_vals /\
+  (forall x, In x exs_vals -> 1 <= x <= 5) /\
+  all_equal [7 # 2; 7 # 2; 7 # 2] /\ map Qred (q_stats [7 # 2; 7 # 2; 7 # 2]) = [7#2; 0; 3; 7#2; 7#2; 7#2; 7#2; 7#2; 7#2; 7#2; 7#2; 7#2] /\
+  map Qred (q_stats [9 # 4]) = [9#4; 0; 1; 9#4; 9#4; 9#4; 9#4; 9#4; 9#4; 9#4; 9#4; 9#4].
+Proof.
+  split; [conc|]. split; [apply Permutation_rev|]. split; [discriminate|]. split; [reflexivity|].
+  split; [vm_compute; reflexivity|]. split; [vm_compute; reflexivity|]. split; [vm_compute; reflexivity|].
+  split; [intros H; specialize (H 3 1 (or_introl eq_refl) (or_intror (or_introl eq_refl))); discriminate H|].
+  split; [intros x Hx; cbn in Hx; repeat (destruct Hx as [<-|Hx]; [split; intros; discriminate|]); destruct Hx|].
+  split; [intros x y Hx Hy; cbn in Hx, Hy; repeat (destruct Hx as [<-|Hx]; [repeat (destruct Hy as [<-|Hy]; [reflexivity|]); destruct Hy|]); destruct Hx|].
+  split; vm_compute; reflexivity.
+Qed.
+
+(* a result with 2 folds and 3 trials (cells hold integers): records written for (trial 2, fold 1) are read back, the record
+   of (trial 0, fold 0) written before survives, add() keeps it *)
+Definition exs_row (k : Z) : list Z := map (fun i => (k * 100 + Z.of_nat i)%Z) (seq 0 12).
+Definition exs_rec (base : Z) (w r : Z) : list Z := exs_row (base + 2 * w + r)%Z.
+Definition exs_st0 : rstate Z := r_add (-1)%Z (r_new (-1)%Z 2) 2.
+Definition exs_st1 : rstate Z := r_store exs_st0 0 0 (exs_rec 10).
+Definition exs_st2 : rstate Z := r_add (-1)%Z exs_st1 1.
+Definition exs_st3 : rstate Z := r_store exs_st2 2 1 (exs_rec 20).
+Example C11_nonvacuous_stats_layout :
+  wf exs_st0 /\ wf exs_st2 /\ (0 <= 2 < r_trials exs_st2)%Z /\ (0 <= 1 < r_folds exs_st2)%Z /\ rows_ok (exs_rec 20) /\
+  ok exs_st2 0 0 1 0 /\ idx_ok 3 2 2 1 1 1 /\ cell 3 2 2 1 1 1 11 = 287%Z /\ size (vdims 3 2) = 288%Z /\
+  r_read exs_st3 2 1 1 0 = exs_row 22 /\ r_read exs_st3 0 0 1 0 = exs_row 12 /\ r_read exs_st3 2 0 0 0 = repeat (-1)%Z 12 /\
+  r_stats Z_ops exs_st3 2 1 false true = exs_row 22 /\ r_stats Z_ops exs_st3 0 0 true false = exs_row 11 /\
+  r_stats_final Z_ops (r_store_final exs_st3 (fun r => exs_row (50 + r))) false = exs_row 51.
+Proof. unfold rows_ok, ok, idx_ok, wf. conc. Qed.
+
+(* value / optimum over Q: 2 folds, 3 trials, the (validation, errors) means are (4, 2), (1, 3), (3, 1): values 3, 2, 2 --
+   the FIRST minimum (trial 1) is the optimum; closest_trial on the distances 5, 2, 2, 1 restricted to 3 trials is trial 1 *)
+Definition exs_q (m : Q) : list Q := m :: repeat 0 11.
+Definition exs_qst : rstate Q :=
+  let st := r_add 0 (r_new 0 2) 3 in
+  let put (st : rstate Q) (t f : Z) (m : Q) := r_store st t f (fun w r => if ((w =? 1) && (r =? 0))%Z then exs_q m else exs_q 100) in
+  put (put (put (put (put (put st 0%Z 0%Z 4) 0%Z 1%Z 2) 1%Z 0%Z 1) 1%Z 1%Z 3) 2%Z 0%Z 3) 2%Z 1%Z 1.
+Example C11_nonvacuous_value_optimum :
+  order_ok Q_ops /\ (0 <= r_folds exs_qst)%Z /\ (0 <= r_trials exs_qst)%Z /\
+  map (fun t => Qred (r_value_default Q_ops exs_qst t)) [0; 1; 2]%Z = [3; 2; 2] /\
+  Qred (r_value Q_ops exs_qst 0 true false) = 100 /\
+  r_optimum Q_ops 1000 exs_qst = 1%Z /\ C20_Proofs.lt Q_ops (r_value_default Q_ops exs_qst 1) 1000 /\
+  r_closest Q_ops 1000 (fun t => nth (Z.to_nat t) [5; 2; 2; 1] 0) 3 = 1%Z /\
+  q_closest 1000 [[0; 0]; [1; 1]; [3; 0]] [2; 1] 3 = 1%Z /\
+  r_optimum Q_ops 1 exs_qst = 0%Z.
+Proof. split; [exact Q_order_ok|]. conc. Qed.
+
+(* a batch of 2 trials x 2 folds run in the order 3, 0, 2, 1 after an older trial: model = parameter + number of training
+   samples, error = |model - sample| proxy (model - sample)^2, loss = model * sample *)
+Definition exs_splits : list (list Z * list Z) := [([1; 2; 3], [4; 5])%Z; ([4; 5], [1; 2; 3])%Z].
+Definition exs_fit (p : Z) (tr : list Z) : Z := (p + Z.of_nat (length tr))%Z.
+Definition exs_err (m s : Z) : Q := inject_Z ((m - s) * (m - s)).
+Definition exs_loss (m s : Z) : Q := inject_Z (m * s) / 2.
+Definition exs_old : rstate Q := r_store (r_add 0 (r_new 0 2) 1) 0 1 (fun w r => exs_q (inject_Z (7 + w + r))).
+Definition exs_new (order : list Z) : rstate Q := tune_batch Z Z Z exs_fit exs_err exs_loss exs_splits [10; 20]%Z 0%Z exs_old order.
+Example C11_nonvacuous_tune_batch :
+  wf exs_old /\ (0 < r_folds exs_old)%Z /\
+  Permutation [3; 0; 2; 1]%Z (map Z.of_nat (seq 0 (Z.to_nat (r_folds exs_old * Z.of_nat (length [10; 20]%Z))))) /\
+  map Qred (r_stats Q_ops (exs_new [3; 0; 2; 1]%Z) 2 1 false true) = map Qred (q_stats (map (exs_err 22) [1; 2; 3]%Z)) /\
+  map (map Qred) (map (fun t => r_stats Q_ops (exs_new [3; 0; 2; 1]%Z) t 0 true false) [1; 2]%Z)
+  = map (map Qred) (map (fun t => r_stats Q_ops (exs_new [0; 1; 2; 3]%Z) t 0 true false) [1; 2]%Z) /\
+  r_read (exs_new [3; 0; 2; 1]%Z) 0 1 1 1 = exs_q 9.
+Proof.
+  split; [unfold wf; conc|]. split; [reflexivity|].
+  split; [change (Permutation [3; 0; 2; 1]%Z [0; 1; 2; 3]%Z);
+          apply (perm_trans (l' := [0; 3; 2; 1]%Z)); [apply perm_swap|]; apply perm_skip;
+          apply (perm_trans (l' := [2; 3; 1]%Z)); [apply perm_swap|];
+          apply (perm_trans (l' := [2; 1; 3]%Z)); [apply perm_skip, perm_swap|apply perm_swap]|].
+  conc.
+Qed.
